@@ -188,6 +188,7 @@ def run(tier, seed):
                         'not decided: the window semantics as a whole (start/max across file boundaries, empty files, '
                         'interleavings of has_next_event/load_next_event): a state machine over run-time file contents']
     _file_index(rep, prog)
+    _delivers(rep, prog, rd)
     return rep
 
 
@@ -281,3 +282,124 @@ def _file_index(rep, prog):
             why = str(ex)
         rep.add('READER.file-index', 'update@%s' % ir.fmt(u.stmt[2])[:40], where(fn, u.line), 'current_file_index := %s records the index of the '
                 'file opened at line %d' % (ir.fmt(u.stmt[2])[:60], n.line), ok, why)
+
+
+# ---------------------------------------------------------------- READER.delivers
+def _tri_not(v):
+    return None if v is None else (not v)
+
+
+class _Pred:
+    """three-valued evaluation of a validity predicate (a const method returning bool) under the premises
+    P1 `the object's time is set` (not NaN) and P2 `every element of the object's particle list is valid`;
+    the number of particles is unknown (zero included)"""
+
+    def __init__(self, prog, rep):
+        self.prog = prog
+        self.rep = rep
+
+    def expr(self, e, env, depth):
+        k = e[0]
+        if k == 'num':
+            return e[1] != 0
+        if k == 'op':
+            op = e[1]
+            if op == 'not':
+                return _tri_not(self.expr(e[2], env, depth))
+            if op in ('and', 'or'):
+                vs = [self.expr(x, env, depth) for x in e[2:]]
+                if op == 'and':
+                    return False if any(v is False for v in vs) else (None if any(v is None for v in vs) else True)
+                return True if any(v is True for v in vs) else (None if any(v is None for v in vs) else False)
+            if op in ('!=', '==') and len(e) == 4 and e[2] == e[3] and self._is_time(e[2], env):
+                return op == '=='            # x != x is the NaN test; the time is set
+            if op == 'isnan' and self._is_time(e[2], env):
+                return False
+            return None
+        if k == 'call':
+            name = e[1]
+            args = e[2:]
+            if name.endswith('particle::is_valid') and args and args[0][0] == 'var' and args[0][1] in env.get('elems', ()):
+                return True                   # P2
+            if name.split('::')[-1] in ('empty', 'size') or depth > 3:
+                return None
+            # a const method of the same object: evaluate its body
+            if args and args[0] == ('var', 'this'):
+                fs = [f for (qn, _), f in self.prog.functions.items() if qn == 'bxdecay0::' + name and f.get('body')]
+                if len(fs) == 1:
+                    v, _ = self.fn(fs[0], depth + 1)
+                    return v
+            return None
+        return None
+
+    def _is_time(self, e, env):
+        return e[0] == 'fld' and e[1] == ('var', 'this') and 'time' in e[2]
+
+    def fn(self, f, depth=0):
+        """-> (value in {True, False, None}, [(line, condition text)] of the undetermined tests that lead to `return false`)"""
+        F = cppflow.Flow(f)
+        g = F.g
+        elems = {n.stmt[1][1] for n in g.nodes if n.kind == 'assign' and n.stmt[2][0] == 'op' and n.stmt[2][1] == 'iter'
+                 and 'particles' in ir.fmt(n.stmt[2])}
+        env = {'elems': elems}
+        results = set()
+        culprits = []
+        seen = set()
+        st = [(g.entry.id, None)]
+        while st:
+            i, via = st.pop()
+            if (i, via is not None) in seen:
+                continue
+            seen.add((i, via is not None))
+            n = g.nodes[i]
+            if n.kind == 'return':
+                v = self.expr(n.stmt[1], env, depth) if n.stmt[1] is not None else None
+                results.add(v)
+                if v is not True and via is not None:
+                    culprits.append(via)
+                continue
+            if n.kind == 'branch' and len(n.succ) == 2 and n.succ[0] != n.succ[1]:
+                if n.stmt[1][0] == 'op' and n.stmt[1][1] == 'more':
+                    v = None
+                    unk = via                 # iterating is not a test of the premises
+                else:
+                    v = self.expr(n.stmt[1], env, depth)
+                    unk = (n.line, ir.fmt(n.stmt[1])) if v is None else via
+                if v is not False:
+                    st.append((n.succ[0], unk if v is None else via))
+                if v is not True:
+                    st.append((n.succ[1], unk if v is None else via))
+                continue
+            for s in n.succ:
+                st.append((s, via))
+        if results == {True}:
+            return True, []
+        if results == {False}:
+            return False, culprits
+        return None, culprits
+
+
+def _delivers(rep, prog, rd):
+    rep.rule('READER.delivers', 'the load loop of load_next_event runs until the event object is valid; event::is_valid() is true '
+             'for every event with a set time whose particles are all valid, whatever their number (a stored record with zero '
+             'particles included), so each parsed in-window record ends the loop and is delivered')
+    FR = cppflow.Flow(rd)
+    loops = [b for b in FR.nodes(kind='branch') if any(x[0] == 'call' and x[1].endswith('is_valid') for x in ir.subexprs(b.stmt[1]))
+             and b.id in FR.g.reachable_from_succ(b.id)]
+    if not loops:
+        rep.add('READER.delivers', 'load_next_event', where(rd, rd['l']),
+                'the load loop does not test the validity predicate (nothing to decide)', True, nontrivial=False)
+        return
+    b = loops[0]
+    calls = [x for x in ir.subexprs(b.stmt[1]) if x[0] == 'call' and x[1].endswith('is_valid')]
+    fs = [f for (qn, _), f in prog.functions.items() if qn == 'bxdecay0::' + calls[0][1] and f.get('body')]
+    if len(fs) != 1:
+        raise AnalysisBroken('READER.delivers: definition of %s not found' % calls[0][1])
+    v, culprits = _Pred(prog, rep).fn(fs[0])
+    ok = v is True
+    rep.add('READER.delivers', '%s' % calls[0][1], where(fs[0], culprits[0][0] if culprits else fs[0]['l']),
+            '%s() holds for every timed event whose particles are valid (the loop predicate of load_next_event, line %d)'
+            % (calls[0][1], b.line), ok,
+            None if ok else ['`return false` is reached through the test(s) %s, which the premises do not decide: a stored '
+                             'record for which it fails is parsed but never delivered; the next record overwrites it and the '
+                             'window shifts' % ', '.join('`%s` (line %d)' % (c, l) for l, c in culprits[:3])])
